@@ -5,7 +5,7 @@ import random
 from common import *
 from p_histfile import enc, dec
 
-NAME_ALPHA = [0x61, 0x62, 0x20, 0x27, 0x22, 0x5c, 0x24, 0x28, 0xe9, 0x65e5, 0x60, 0x3b]
+NAME_ALPHA = [0x61, 0x62, 0x20, 0x27, 0x22, 0x5c, 0x24, 0x28, 0xe9, 0x65e5, 0x60, 0x3b, 0x7e]     # (~: names that merely BEGIN with a tilde are ordinary names)
 BREAKS = None
 DQ = None
 
@@ -123,8 +123,10 @@ def c15_corr(res, exe, driver, tier, seed, tmp):
     rng = random.Random(seed * 41 + 2)
     n = 3000 if tier == "thorough" else 400
     cases = []   # (line, meta)
-    for _ in range(n):
+    for it in range(n):
         root = gen_layout(rng)
+        if it % 25 == 0:
+            root = [r for r in root if r[0][:1] != [0x7e]] + [([0x7e, 0x62, 0x61, 0x6b], True, [([0x66, 0x31], False), ([0x73, 0x75, 0x62], True)])]
         if not root:
             continue
         # sometimes a dangling symbolic link lies in the directory too: never offered, never in the way
